@@ -335,6 +335,7 @@ func genC08(m *M, budget int) {
 			m.class("dstlen:>=65535")
 			m.EEncodeToGroup(0, m.msgOf(3), dst)
 		}
+		m.Ciphersuite()
 		// an empty / nil DST panics and produces nothing
 		if m.rng.Intn(2) == 0 {
 			m.EHashToGroup(0, m.msgOf(5), nil)
